@@ -262,6 +262,18 @@ def sendBatch (mk : Layout → List Item → List (Region × List Item)) (prep :
   | fuel + 1, s, items, e :: sc =>
     runBatches (sendBatch mk prep exec fuel) exec s (mk e.layout (prep items)) e.outs sc
 
+/-- `Completes mk prep bs outs sc sc'`: the script `sc` describes a COMPLETE run of the batches `bs` with outcomes
+    `outs`, leaving `sc'`: every batch is served, or meets a region error and is then re-grouped (next script entry:
+    grouping layout + outcomes of the sub-batches), recursively, until every sub-batch has been served.
+    These are exactly the executions in which the Go code returns without an error. -/
+inductive Completes (mk : Layout → List Item → List (Region × List Item)) (prep : List Item → List Item) :
+    List (Region × List Item) → List Bool → BScript → BScript → Prop
+  | nil (sc : BScript) : Completes mk prep [] [] sc sc
+  | served {R b bs os sc sc'} : Completes mk prep bs os sc sc' → Completes mk prep ((R, b) :: bs) (true :: os) sc sc'
+  | regrouped {R b bs os e sc sc1 sc'} :
+      Completes mk prep (mk e.layout (prep b)) e.outs sc sc1 → Completes mk prep bs os sc1 sc' →
+      Completes mk prep ((R, b) :: bs) (false :: os) (e :: sc) sc'
+
 def execGet (s : BState) (R : Region) (b : List Item) : BState :=
   { s with pairs := s.pairs ++ regionBatchGet s.store R (b.map (·.1)) }
 def execPut (s : BState) (R : Region) (b : List Item) : BState :=
